@@ -164,8 +164,21 @@ def cmd_rand(fn, script, tail, args, cellx):
     def check(res):
         if res.budget:
             return [Problem({'C18', 'C14'}, '%s: rejection loop exceeded its step budget' % fn, '')]
-        out = chk_big('C18', res.val(0), want, 'rand %s' % fn, kind)
         got = res.val(0)
+        if fn in ('bigint', 'rbits_i') and isinstance(got, BV) and want is not PANIC and (got.v != want or res.val(1) != consumed):
+            # the property fixes gen_bigint's range and canonical form, not which function of the stream it is: a value
+            # different from this revision's (magnitude, then sign bit, zero re-drawn) is an observation, not a violation
+            out = chk_big('C18', got, got.v, 'rand %s' % fn, kind)
+            out.append(Problem({'NOTE'}, 'gen_bigint is a different function of the RNG stream than in the pinned revision', 'got=%r model=%s' % (got, want)))
+            want_exact = False
+        else:
+            out = chk_big('C18', got, want, 'rand %s' % fn, kind)
+            want_exact = True
+        if fn.startswith('rbits'):
+            ref = res.get('ref')
+            if ref is not PANIC and got is not PANIC and (not (isinstance(ref, BV) and isinstance(got, BV) and (ref.kind, ref.v, ref.raw) == (got.kind, got.v, got.raw)) or res.get('refn') != res.val(1)):
+                out.append(Problem('C18', 'RandomBits does not match %s on the same stream' % ('gen_bigint' if fn == 'rbits_i' else 'gen_biguint'),
+                                   'got=%r consumed=%s ref=%r consumed=%s' % (got, res.val(1), ref, res.get('refn'))))
         if isinstance(got, BV):
             v = got.v
             # the bounds themselves, independent of the stream model
@@ -179,7 +192,7 @@ def cmd_rand(fn, script, tail, args, cellx):
                 out.append(Problem('C18', '%s: result outside [low, high)' % fn, repr(got)))
             if fn.endswith('_inc') and not (args[0] <= v <= args[1]):
                 out.append(Problem('C18', '%s: result outside [low, high]' % fn, repr(got)))
-        if want is not PANIC and got is not PANIC:
+        if want is not PANIC and got is not PANIC and want_exact:
             n = res.val(1)
             if n != consumed:
                 out.append(Problem('C18', '%s: consumed %s bytes of the RNG stream, the documented function of the stream consumes %d' % (fn, n, consumed), ''))
@@ -219,6 +232,27 @@ def workload(tier, seed, scale=1.0):
         for boolword in (b'\x00\x00\x00\x80', b'\x00\x00\x00\x00', b'\xff\xff\xff\x7f'):
             add('bigint', bytes(nb) + boolword + bytes(nb) + b'\x00\x00\x00\x00', 'c', [n], ('zero-retry', n))
             add('bigint', bytes([1] + [0] * (nb - 1)) + boolword if nb else boolword, 'z', [n], ('sign', n))
+    # gen_bigint covers its whole range: every value of (-2^n, 2^n) is produced by some stream (model-independent)
+    for n in (0, 1, 2, 3):
+        def mk(n=n):
+            full = list(range(-(1 << n) + 1, 1 << n))
+
+            def check(res):
+                vals = [v for v in (res.val(i) for i in range(len(res.pos))) if isinstance(v, BV) or v is PANIC]
+                if any(v is PANIC for v in vals):
+                    return [Problem({'C18', 'C14'}, 'gen_bigint panicked', '')]
+                out = []
+                for v in vals:
+                    out += chk_big('C18', v, v.v if isinstance(v, BV) else 0, 'gen_bigint(%d)' % n, 'I')
+                got = sorted(v.v for v in vals if isinstance(v, BV))
+                if [g for g in got if not -(1 << n) < g < (1 << n)]:
+                    out.append(Problem('C18', 'gen_bigint: result outside (-2^n, 2^n)', 'n=%d got=%r' % (n, got)))
+                if [x for x in full if x not in got]:
+                    out.append(Problem('C18', 'gen_bigint does not cover its range: some value of (-2^n, 2^n) is never produced over all 512 '
+                                       'three-word top-bit streams', 'n=%d produced=%r' % (n, got)))
+                return out
+            return Cmd('rand cover_i x:c %d' % n, check, cell=('cover_i', n), prop='C18')
+        cmds.append(mk())
     # exhaustive first draws for every bound <= 64
     for b in range(1, 65):
         bits = b.bit_length()
